@@ -1,10 +1,10 @@
 (* C05 - Client: every operation completes exactly once under cancel, Close and failure.
    Property theorems only; every proof is `exact <lemma>` (lemmas in coq/cli/CliC05.v, CliProofs.v, CliLive.v,
-   CliHist.v, CliWg.v, CliStop.v, CliCloseWait.v, CliGo.v, CliFail.v; invariants in coq/cli/CliInv.v, CliRet.v, CliCtx.v, CliOps.v, CliHist.v, CliWg.v,
+   CliHist.v, CliWg.v, CliStop.v, CliCloseWait.v, CliGo.v, CliFail.v, CliBatch.v; invariants in coq/cli/CliInv.v, CliRet.v, CliCtx.v, CliOps.v, CliHist.v, CliWg.v,
    CliStop.v). *)
 From Coq Require Import List NArith ZArith Bool Arith.
 From RecordUpdate Require Import RecordUpdate.
-From JV Require Import Bytes Msg CliModel CliLemmas CliInv CliRet CliProofs CliC05 CliCtx CliOps CliHist CliLive CliWg CliSend CliNoStop CliStep CliStop CliObs CliCloseWait CliGo CliOpTrans CliFail.
+From JV Require Import Bytes Msg CliModel CliLemmas CliInv CliRet CliProofs CliC05 CliCtx CliOps CliHist CliLive CliWg CliSend CliNoStop CliStep CliStop CliObs CliCloseWait CliGo CliOpTrans CliFail CliBatch.
 Import ListNotations.
 
 (* EXACTLY ONE RETURN (full statement).  In every history of every schedule each operation (Call, Batch, Notify,
@@ -202,3 +202,18 @@ Theorem c05_after_stop_trace : forall c tr1 s1 n k specs tr2 s, traces_to c tr1 
           match r with RetFail (EStopped _) | RetFail EBadParams | RetFail EEmptyBatch | RetClose _ => True | _ => False end).
 Proof. exact after_stop_trace. Qed.
 Print Assumptions c05_after_stop_trace.
+
+(* BATCH OUTCOME (the Batch analogue of clause 4 of c05_watch_outcome, every trace).  The responses of a returned
+   Batch are, per slot of the operation in allocation (= spec) order, the pair of the slot's id and batch_res of the
+   slot's value v, and for each entry ([slot_outcome]): if v came from a delivery (v_src = SPeer j k) it is the payload of
+   member k of inbound record j, whose id is that entry's id, and OnCancel never ran for it; if it came from the
+   entry's watcher (SWatch) the entry's context ended with cause cw because the caller's context ended with cw or the
+   client stopped, v is the error of that cause (context.Canceled / DeadlineExceeded, or an internal error carrying an
+   interesting stop cause), and OnCancel ran exactly once iff configured. *)
+Theorem c05_batch_outcome : forall c tr s, traces_to c tr s ->
+  forall n rs, In (ORet n (RetBatch rs)) (hist s) ->
+    exists o, op_at s n = Some o /\ o_kind o = KBatch
+      /\ Forall2 (fun i p => exists sl v, slot_at s i = Some sl /\ sl_op sl = n /\ sl_buf sl = Some v
+                               /\ p = (id_text (sl_id sl), batch_res v) /\ slot_outcome s sl v) (o_slots o) rs.
+Proof. exact batch_outcome. Qed.
+Print Assumptions c05_batch_outcome.
